@@ -54,6 +54,16 @@ def active():
 
 
 # ----------------------------------------------------------------------------- helpers
+TOKENS = {}
+
+
+def token_of(term):
+    """a printable token standing for a symbolic term inside formatted text"""
+    i = term.get_id()
+    TOKENS[i] = term
+    return '\u27e6%d\u27e7' % i
+
+
 def is_sym(x):
     return isinstance(x, (SymInt, SymBool, SymBytes))
 
@@ -313,12 +323,12 @@ class SymInt:
         raise Unsupported('bit_length of symbolic int')
 
     def __repr__(self):
-        return '<symint>'
+        return token_of(self.t)
 
     __str__ = __repr__
 
     def __format__(self, spec):
-        return '<symint>'
+        return token_of(self.t)
 
 
 class SymEnumVal(SymInt):
@@ -493,14 +503,15 @@ class SymBytes:
         raise Unsupported('hash() of symbolic bytes')
 
     def hex(self, *a):
-        return ''.join('%02x' % i if isinstance(i, int) else '??' for i in self.items)
+        # symbolic bytes render as tokens that keep the term (used by the log non-interference check, C20)
+        return ''.join('%02x' % i if isinstance(i, int) else token_of(i) for i in self.items)
 
     def decode(self, encoding='utf-8', errors='strict'):
         if self.is_concrete():
             return bytes(self.items).decode(encoding, errors)
         if errors == 'strict':
             raise Unsupported('strict decode of symbolic bytes')
-        return '<symstr:%d>' % len(self.items)
+        return ''.join(chr(i) if isinstance(i, int) and i < 128 else ('?' if isinstance(i, int) else token_of(i)) for i in self.items)
 
     def __bytes__(self):
         if self.is_concrete():
@@ -589,6 +600,7 @@ class Engine:
 
     # ---- per-path state
     def _reset(self, prefix):
+        TOKENS.clear()
         self.solver = z3.Solver()
         self.solver.set('timeout', self.query_timeout_ms)
         self.prefix = prefix
